@@ -231,7 +231,7 @@ static Token *copy_line(Token **rest, Token *tok) {
   Token head = {};
   Token *cur = &head;
 
-  for (; !tok->at_bol; tok = tok->next)
+  for (; !tok->at_bol && tok->kind != TK_EOF; tok = tok->next)
     cur = cur->next = copy_token(tok);
 
   cur->next = new_eof(tok);
